@@ -687,18 +687,36 @@ func c12SharedSeq(g *Gen) {
 				safe(func() { want[i].Chain, want[i].Err = a.FindChain(n) })
 			}
 			// parallel runs, each over a freshly built list around ONE sequence algorithm (cold state)
-			for round := 0; round < g.pick(12, 60); round++ {
+			for round := 0; round < g.pick(30, 120); round++ {
 				g.Pending("c12sharedseq", st.String(), n.String(), strconv.Itoa(round))
 				shared := contfrac.NewAlgorithm(st)
 				par := build(func() alg.SequenceAlgorithm { return shared })
 				var rs []acexec.Result
-				pn := safe(func() {
-					ex := acexec.NewParallel()
-					ex.SetConcurrency(16)
-					rs = ex.Execute(n, par)
-				})
+				pn := ""
+				done := make(chan struct{})
+				go func() {
+					defer close(done)
+					pn = safe(func() {
+						ex := acexec.NewParallel()
+						ex.SetConcurrency(16)
+						rs = ex.Execute(n, par)
+					})
+				}()
+				timedOut := false
+				select {
+				case <-done:
+				case <-time.After(60 * time.Second):
+					timedOut = true
+				}
 				g.Count("shared-sequence-algorithm")
 				msg := ""
+				if timedOut {
+					// an executor that never returns is judged by the schedule cases above; stop this probe
+					if !g.notesViolation() {
+						g.Notes = append(g.Notes, fmt.Sprintf("VIOLATION: %s dictionary algorithms sharing one sequence algorithm, n=%v: Execute does not return within 60 s", st, n))
+					}
+					return
+				}
 				if pn != "" {
 					msg = "Execute panics: " + pn
 				} else if len(rs) != len(par) {
